@@ -417,6 +417,16 @@ class ExactCollections:
             return list(seq), False
         return super().unpack(value, n, node, state)
 
+    def unpack_starred(self, value, star_index, n, node, state):
+        seq = self._seq(value, state) if not isinstance(value, GenV) else None
+        if seq is None or (isinstance(value, Ref) and value.kind != "list"):
+            return super().unpack_starred(value, star_index, n, node, state)
+        after = n - star_index - 1
+        if len(seq) < star_index + after:
+            return None, True
+        mid = TupleV(tuple(seq[star_index : len(seq) - after]))  # (a list in Python; nobody mutates a `*rest`)
+        return list(seq[:star_index]) + [mid] + list(seq[len(seq) - after :] if after else []), False
+
     # ---- subscripts -----------------------------------------------------------------------
     def subscript_load_s(self, objval, idxval, node, state):
         """-> (value, may_raise, state)"""
@@ -517,9 +527,15 @@ class ExactCollections:
         midway = isinstance(state.get(key, None), int) and not isinstance(node, ast.comprehension)
         seq = self._seq(itval, state) if not (midway and isinstance(itval, GenV)) else itval.items
         if seq is None:
-            # an iterable whose elements are not known: whatever is counted or collected in this loop is a guess
+            # an iterable whose elements are not known: whatever is counted or collected in this loop is a guess.  The
+            # state is marked imprecise (verdicts on such paths are 'undecided'), so two iterations are explored and
+            # no more: nothing further could be learnt, and objects allocated per iteration would never converge
+            ukey = ("uiter", node.lineno, getattr(node, "col_offset", 0))
+            n = state.get(ukey, 0)
+            if n >= 2 and not isinstance(node, ast.comprehension):
+                return []
             res = super().for_next(node, itval, state)
-            return [(v, self.mark_imprecise(s, node)) for v, s in res]
+            return [(v, self.mark_imprecise(s.set(ukey, n + 1) if not isinstance(node, ast.comprehension) else s, node)) for v, s in res]
         if isinstance(node, ast.comprehension):
             st = state.set(("gen", itval.site), 1) if isinstance(itval, GenV) else state
             return [(v, st) for v in seq]
@@ -559,3 +575,43 @@ class ExactCollections:
         if isinstance(node, ast.GeneratorExp):
             return GenV((node.lineno, node.col_offset), tuple(v[0] for v in elem_values)), state
         return TOP, state
+
+
+# ---- constant folding of pure str / bytes methods ----------------------------------------------------------------
+PURE_METHODS = ("split", "rsplit", "splitlines", "decode", "encode", "strip", "lstrip", "rstrip", "startswith", "endswith", "partition", "rpartition", "find", "rfind", "isdigit", "lower", "upper", "join", "replace", "format", "count", "index", "title", "zfill")
+
+
+class NotConcrete(Exception):
+    pass
+
+
+def lower_value(v):
+    """Abstract value -> Python value, when it denotes exactly one."""
+    if isinstance(v, Const):
+        return v.v
+    if isinstance(v, TupleV):
+        return tuple(lower_value(x) for x in v.items)
+    raise NotConcrete(v)
+
+
+def lift_value(x):
+    """Python value -> abstract value (lists and tuples become TupleV)."""
+    if isinstance(x, (list, tuple)):
+        return TupleV(tuple(lift_value(y) for y in x))
+    return Const(x)
+
+
+def fold_method(recv, attr, args, kwargs, lineno):
+    """recv.attr(*args, **kwargs) on constants: -> [('ok', value)] / [('exc', Exc)] or None when not foldable."""
+    if attr not in PURE_METHODS or not isinstance(recv, Const) or not isinstance(recv.v, (str, bytes)):
+        return None
+    try:
+        a = [lower_value(x) for x in args]
+        kw = {k: lower_value(x) for k, x in kwargs.items()}
+    except NotConcrete:
+        return None
+    a = [list(x) if isinstance(x, tuple) and attr == "join" else x for x in a]
+    try:
+        return [("ok", lift_value(getattr(recv.v, attr)(*a, **kw)))]
+    except Exception as e:
+        return [("exc", Exc(ORD, type(e).__name__, lineno))]
